@@ -75,6 +75,8 @@ pub enum PkArg {
     OfSigner,
     /// the public key of the key that does not sign this call
     OfNonSigner,
+    /// (CombinedKey only) a public key of the OTHER signature scheme; elsewhere the same as OfNonSigner
+    OtherScheme,
 }
 
 #[derive(Clone, Debug, PartialEq, Eq, Serialize, Deserialize, Hash)]
@@ -360,6 +362,8 @@ pub fn type_judge(key: &[u8], raw: &[u8], signer: &MSigner) -> TJ {
 pub struct ModelCtx<'a> {
     pub signer: &'a MSigner,
     pub nonsigner: &'a MSigner,
+    /// a key of the other scheme (CombinedKey histories only)
+    pub alt: Option<&'a MSigner>,
 }
 
 fn ip_raw(ip: &IpAddr) -> (&'static [u8], Vec<u8>) {
@@ -515,6 +519,7 @@ pub fn predict(seq: u64, pairs: &Pairs, op: &Op, m: &ModelCtx) -> Pred {
             let pk = match which {
                 PkArg::OfSigner => signer,
                 PkArg::OfNonSigner => m.nonsigner,
+                PkArg::OtherScheme => m.alt.unwrap_or(m.nonsigner),
             };
             let raw = rlp::enc_str(&pk.pubkey);
             judge(pk.slot(), &raw, &mut must, &mut may);
